@@ -208,6 +208,18 @@ IDENTS = ["Foo", "Bar", "Baz", "Count", "I", "J", "Value", "Item", "List", "Self
 TYPES = ["Integer", "string", "Boolean", "TObject", "TFoo", "Double", "Byte", "TList<Integer>", "TDictionary<string, TFoo>", "array of Integer"]
 
 
+# type declarations that occupy one logical line (bodyless struct types, forward declarations, metaclasses,
+# aliases, arrays, subranges, enumerations, sets, procedural types, ...): whatever follows must stay a sibling
+ONE_LINE_TYPES = ["Integer", "array of string", "^TFoo", "set of Byte", "(a, b, c)", "procedure(A: Integer) of object", "reference to function: Integer",
+                  "class", "class(Exception)", "class(TBase, IFoo)", "class(TList<Integer>)", "interface", "interface(IInterface)", "dispinterface",
+                  "class of TFoo", "class abstract", "class sealed(TBase)", "class(TObject) end", "record end", "interface(IUnknown) end",
+                  "type Integer", "type string", "array[0..9] of Integer", "array[Boolean, 1..3] of string", "0..255", "Low(Byte)..High(Byte)", "string[20]",
+                  "file of Byte", "packed array[0..3] of Byte", "TList<Integer>", "TDictionary<string, TList<Integer>>",
+                  "function(const A: string; var B: Integer): Boolean", "procedure", "function: Integer of object", "reference to procedure(A: Integer)",
+                  "(a = 1, b = 2)", "set of (x, y)", "set of 0..7", "Integer deprecated", "procedure(A: Integer) stdcall", "-1..1", "type TFoo", "^Integer",
+                  "class(TBase<T>)", "TFoo.TNested", "array of array of Integer", "array of const"]
+
+
 class GrammarGen:
     def __init__(self, rng, max_depth=4):
         self.rng = rng
@@ -492,7 +504,8 @@ class GrammarGen:
             else:
                 self.nl(p, depth + 1)
                 self.mark(p, depth + 1, "member")
-                self.emit(p, "T" + self.ident() + " = " + r.choice(["Integer", "array of string", "^TFoo", "set of Byte", "(a, b, c)", "procedure(A: Integer) of object", "reference to function: Integer"]) + ";")
+                name = "T" + self.ident() + r.choice(["", "", "", "<T>", "<TKey, TValue>", "<T: class>"])
+                self.emit(p, name + " = " + r.choice(ONE_LINE_TYPES) + ";")
 
     def global_section(self, p, depth):
         r = self.rng
@@ -676,3 +689,49 @@ def codepoint_sweep(rng=None, frac=1.0, wellformed_only=False):
                 continue
             out.append(("sweep-" + name, tpl % chr(cp)))
     return out
+
+
+ASM_INSTR = ["mov eax, 1", "ret", "xor eax, eax", "push ebx", "pop ebx", "@@loop: dec ecx", "jnz @@loop", "mov [edx + 4], al", "db $90, $90", "call System.@LStrClr", "lea eax, [ebp - 8]"]
+
+
+def asm_pair(rng):
+    """a routine (or several) with an asm block, and a variant that differs ONLY in layout outside the instruction lines:
+    the indentation of the routine header and of `asm`, the gap before the closing `end`, the gap between `end` and `;`,
+    the code after the block.  Bodies: empty, one line, several lines, instructions separated by `;`, last instruction
+    ended by `;` or not, a comment line.  returns (text, variant, instruction_region_text)"""
+    def gap(kind):
+        if kind == "nl":
+            return rng.choice(["\n", "\n  ", "\n      ", "\n\t"])
+        if kind == "sp":
+            return rng.choice([" ", "  ", "\t", "   "])
+        return rng.choice(["", " ", "  ", "\n", "\n    "])
+    n = rng.choice([0, 0, 1, 2, 3, 5])
+    lines = []
+    for i in range(n):
+        ln = rng.choice(ASM_INSTR)
+        if rng.random() < 0.25:
+            ln += "; " + rng.choice(ASM_INSTR)
+        if rng.random() < 0.3:
+            ln += ";"
+        if rng.random() < 0.15:
+            ln += "  // note"
+        lines.append(ln)
+    if lines and rng.random() < 0.4:
+        lines[-1] = lines[-1].split("  //")[0].rstrip(";") + ";"     # the last instruction ends in a semicolon
+    body = "".join("\n  " + rng.choice(["", "  "]) + ln for ln in lines)
+    name = rng.choice(["Foo", "Bar", "Baz"])
+    kind = rng.choice(["procedure %s;", "function %s: Integer;", "procedure %s; assembler;", "procedure %s(A: Integer); register;"]) % name
+    tail = rng.choice(["", "procedure After;\nbegin\n  X := 1;\nend;\n", "begin\n  %s;\nend.\n" % name])
+    inline = rng.random() < 0.25     # an asm block as a statement inside begin..end
+
+    def build():
+        if inline:
+            head = "procedure %s;%sbegin%sX := 1;%sasm" % (name, gap("nl"), gap("nl"), gap("nl"))
+            close = (gap("nl") if n else rng.choice([gap("sp"), gap("nl")])) + "end" + gap("any") + ";" + gap("nl") + "Y := 2;" + gap("nl") + "end;\n"
+        else:
+            head = kind + gap("nl") + "asm"
+            close = (gap("nl") if n else (gap("sp") if rng.random() < 0.5 else gap("nl"))) + "end" + gap("any") + ";\n"
+        return head + body + close + tail
+    a = build()
+    b = build()
+    return a, b, body
